@@ -52,6 +52,18 @@ def r18_1_2(ctx: Ctx) -> None:
         ctx.ob("R18.1", BASE, submit[0] if submit else func, qual, "pool API", ok,
                "work is submitted once, through an order-preserving pool method",
                form="; ".join(txt(c)[:60] for c in submit))
+        for sub in submit:
+            chunk = kwarg(sub, "chunksize") or (sub.args[2] if len(sub.args) > 2 else None)
+            if chunk is None:
+                continue
+            positive = (isinstance(chunk, ast.Constant) and isinstance(chunk.value, int) and chunk.value >= 1) or \
+                (isinstance(chunk, ast.Call) and call_name(chunk) == "max" and any(
+                    isinstance(a, ast.Constant) and isinstance(a.value, int) and a.value >= 1 for a in chunk.args))
+            ctx.ob("R18.1", BASE, sub, qual, "chunk size", positive,
+                   "a chunk size handed to the pool is at least one for every batch size (a chunk size of 0 makes the pool "
+                   "report a list of None without running anything)",
+                   detail="" if positive else f"`{txt(chunk)}` can be 0 (e.g. batch smaller than the worker count)",
+                   form=txt(chunk))
         jobs = [txt(t) for n in walk_local(func) if isinstance(n, ast.Assign) and n.value in submit for t in n.targets]
         gets = [n for n in walk_local(func) if isinstance(n, ast.Assign) and isinstance(n.value, ast.Call)
                 and last_attr(n.value) == "get" and txt(n.value.func.value) in jobs]  # type: ignore[attr-defined]
